@@ -1098,6 +1098,43 @@ func checkExitStructure(c *Ctx, p *core.Prog) {
 	if !c.R.Anchor(fn != nil, "identify_license.main") {
 		return
 	}
+	// `func main() { if err := run(); err != nil { log.Fatal(err) } }`: the exit status is decided in run - a return of an
+	// error is the fatal exit, a return of nil the normal one
+	runStyle := false
+	for _, call := range core.CallsIn(fn) {
+		g := call.Common().StaticCallee()
+		cv, isCall := call.(*ssa.Call)
+		if g == nil || !isCall || core.FuncPkgPath(g) != cliPkg || len(g.Blocks) == 0 || g.Signature.Results().Len() != 1 || g.Signature.Results().At(0).Type().String() != "error" {
+			continue
+		}
+		// its error leads to a fatal exit
+		for _, r := range *cv.Referrers() {
+			bo, isBo := r.(*ssa.BinOp)
+			if !isBo || bo.Op != token.NEQ {
+				continue
+			}
+			for _, u := range *bo.Referrers() {
+				if ifi, isIf := u.(*ssa.If); isIf {
+					for _, fc := range core.CallsIn(fn) {
+						if isFatal(fc) && ifi.Block().Succs[0].Dominates(fc.Block()) {
+							hasGet := false
+							for _, inner := range core.CallsIn(g) {
+								if inner.Common().IsInvoke() && inner.Common().Method.Name() == "GetResults" {
+									hasGet = true
+								}
+								if ic := inner.Common().StaticCallee(); ic != nil && ic.Name() == "GetResults" {
+									hasGet = true
+								}
+							}
+							if hasGet {
+								fn, runStyle = g, true
+							}
+						}
+					}
+				}
+			}
+		}
+	}
 	var getRes *ssa.Call
 	isGetResults := func(call ssa.CallInstruction) bool {
 		if cal := call.Common().StaticCallee(); cal != nil {
@@ -1152,11 +1189,68 @@ func checkExitStructure(c *Ctx, p *core.Prog) {
 			fatalBlock[call.Block()] = true
 		}
 	}
+	// with a deferred call in the function the result is spilled: the value returned is the one stored last into the result
+	// cell in the same block
+	retVal := func(b *ssa.BasicBlock) ssa.Value {
+		ret, ok := b.Instrs[len(b.Instrs)-1].(*ssa.Return)
+		if !ok || len(ret.Results) != 1 {
+			return nil
+		}
+		v := ret.Results[0]
+		if ld, isLd := v.(*ssa.UnOp); isLd && ld.Op == token.MUL {
+			if al, isAl := ld.X.(*ssa.Alloc); isAl {
+				var last ssa.Value
+				for _, in := range b.Instrs {
+					if in == ssa.Instruction(ld) {
+						break
+					}
+					if st, isSt := in.(*ssa.Store); isSt && st.Addr == ssa.Value(al) {
+						last = st.Val
+					}
+				}
+				if last != nil {
+					return last
+				}
+			}
+		}
+		return v
+	}
+	errReturn := func(b *ssa.BasicBlock) bool {
+		v := retVal(b)
+		if v == nil || !runStyle {
+			return false
+		}
+		cst, isC := v.(*ssa.Const)
+		return !isC || !cst.IsNil()
+	}
+	if runStyle {
+		for _, b := range fn.Blocks {
+			if errReturn(b) {
+				// a return of something that may be an error ends the program with a non-zero status - unless it is the
+				// value of a call that is itself the last thing done (`return writeJSON(res)`): then the guard rule below
+				// looks at that call
+				fatalBlock[b] = true
+			}
+		}
+	}
 	// the return block(s) of normal termination
 	n := 0
 	for _, b := range fn.Blocks {
 		if _, ok := b.Instrs[len(b.Instrs)-1].(*ssa.Return); !ok || b == fn.Recover {
 			continue
+		}
+		if errReturn(b) {
+			if runStyle {
+				rc, isCall := retVal(b).(*ssa.Call)
+				if !isCall {
+					continue
+				}
+				if g := rc.Call.StaticCallee(); g == nil || core.FuncPkgPath(g) != cliPkg {
+					continue // errors.New(...), fmt.Errorf(...): an error, hence a fatal exit
+				}
+				// `return f(res)`: status 0 iff f returns nil - counts as a normal return behind the results test
+				delete(fatalBlock, b)
+			}
 		}
 		if !getRes.Block().Dominates(b) {
 			continue
@@ -1584,7 +1678,7 @@ func checkToolOutputRules(c *Ctx, p *core.Prog) {
 	}
 	c.R.Count("R19.13:process exits in the tool", nExit)
 	c.R.OK("R19.13", "the tool's functions: no deferred Flush in front of a process exit", cliPkg, fmt.Sprintf("%d calls of log.Fatal*/os.Exit examined", nExit))
-	c.R.RequireMin("R19.13", "calls that end the process in the tool", nExit, 2)
+	c.R.RequireMin("R19.13", "calls that end the process in the tool", nExit, 1)
 
 	// ---- R19.14 ----
 	var depFile func(v ssa.Value, seen map[ssa.Value]bool) bool
@@ -1776,7 +1870,6 @@ func nonEmptyOnAllPaths(fn *ssa.Function, from, to *ssa.BasicBlock, res ssa.Valu
 	}
 	return true, len(paths), ""
 }
-
 
 // checkEveryFileMatchedAndPrinted: two rules on "prints, for each file, exactly the matches Match returns".
 // R19.17 every file that could be read is matched: in the backend the call of the library's Match stands behind tests of
